@@ -16,6 +16,11 @@ mod world {
     pub fn cb_enter() -> bool {
         false
     }
+    /// a user value's destructor prints to the real stdout
+    pub fn noise(text: &str) {
+        use std::io::Write;
+        let _ = std::io::stdout().write_all(text.as_bytes());
+    }
 }
 
 use std::io::Read;
